@@ -16,6 +16,7 @@ RULE = (
     "dnspython Answer. Oracle: exactly one query, type SRV, name _ldap._tcp.dc._msdcs.<domain> (bare prefix with search enabled when no domain); result has minimal (priority, -weight); it is one of the "
     "records with port/weight/priority unchanged and target without trailing dot; sync == async. Plus the public API without `server` for 60 lists: the first connection goes to (chosen target, 135). "
     "Every list is distinct by construction; non-trivial = lists with >= 2 records."
+    ' Also answers parsed from wire whose ADDITIONAL section carries A / AAAA records for every subset of the targets (all ordered lists of 1..3 records); 1..3 async lookups in flight at once with a suspending resolver on three successive event loops.'
 )
 ASSUME = ["dns.resolver.resolve / dns.asyncresolver.resolve are the library's DNS entry points (seam)"]
 BOUND = {"quick": "all 66,429 ordered lists, both flavours", "thorough": "same + full weight domain {0,1,65535} variant"}
